@@ -739,9 +739,22 @@ def stack_plugin():
             @classmethod
             def input_keywords(cls):
                 return ['add50', ]
+        from taurex.mixin import GasMixin
+
+        class ScaleGas(GasMixin):
+            def __init_mixin__(self, gas_factor=0.5):
+                self._gas_factor = gas_factor
+
+            @property
+            def mixProfile(self):
+                return super().mixProfile * self._gas_factor
+
+            @classmethod
+            def input_keywords(cls):
+                return ['scalegas', ]
         mod = types.ModuleType('verif_stack_plugin')
-        Doubler.__module__ = Add50.__module__ = mod.__name__
-        mod.Doubler, mod.Add50 = Doubler, Add50
+        Doubler.__module__ = Add50.__module__ = ScaleGas.__module__ = mod.__name__
+        mod.Doubler, mod.Add50, mod.ScaleGas = Doubler, Add50, ScaleGas
         _STACK_PLUGIN.append(mod)
     return _STACK_PLUGIN[0]
 
@@ -754,6 +767,23 @@ def stack_case(case):
     d, files = begin()
     du.factory(reload=True).load_plugin(stack_plugin())
     sel = case['stack']
+    if case.get('family') == 'gas':
+        # a gas mixin from the plugin on a built-in gas profile, inside a chemistry section
+        text = du.par_text([('Chemistry', [('chemistry_type', 'taurex'), ('fill_gases', 'H2,He'), ('ratio', '0.2'),
+                                           ('H2O', [('gas_type', sel), ('mix_ratio', '4e-4'), ('gas_factor', '0.25')])])])
+        try:
+            chem = du.parser_for(d, text).generate_chemistry_profile()
+            chem.initialize_chemistry(3, np.full(3, 1000.0), np.array([1e5, 1e3, 1e1]), None)
+            got = np.asarray(chem.get_gas_mix_profile('H2O'), dtype=float)
+            err = None
+        except Exception as e:
+            got, err = None, e
+        r.observe(sel, got, type(err).__name__)
+        r.nontrivial = True
+        if r.check(err is None, 'builds', 'stack/raised/gas/%s/%s' % (sel, exc_sig(err)), exc=repr(err), text=text):
+            r.eq(got, np.full(3, 1e-4), 'stack-order', 'stack/gas/' + sel, rtol=1e-12)
+        du.factory(reload=True)
+        return r
     items = [('profile_type', sel), ('T', '1000.0')]
     if 'tempscalar' in sel:
         items.append(('scale_factor', '3.0'))
@@ -783,11 +813,64 @@ def stack_case(case):
     return r
 
 
+def plugin_case(case):
+    """A plugin module holding one plain class and one mixin of every component family: after load_plugin each of them
+    is listed under its own family and under no other (what the selectors of that family can resolve)."""
+    import types
+    import taurex.mixin as tm
+    from taurex.temperature import TemperatureProfile
+    from taurex.pressure import PressureProfile
+    from taurex.chemistry import Chemistry, Gas
+    from taurex.planet import BasePlanet
+    from taurex.stellar import Star
+    from taurex.model import ForwardModel
+    from taurex.contributions import Contribution
+    from taurex.optimizer import Optimizer
+    from taurex.instruments import Instrument
+    from taurex.spectrum import BaseSpectrum
+    from taurex.core.priors import Prior
+    r = core.R(case)
+    begin()
+    bases = {'temperature': (TemperatureProfile, tm.TemperatureMixin), 'pressure': (PressureProfile, tm.PressureMixin),
+             'chemistry': (Chemistry, tm.ChemistryMixin), 'gas': (Gas, tm.GasMixin), 'planet': (BasePlanet, tm.PlanetMixin),
+             'star': (Star, tm.StarMixin), 'model': (ForwardModel, tm.ForwardModelMixin),
+             'contribution': (Contribution, tm.ContributionMixin), 'optimizer': (Optimizer, tm.OptimizerMixin),
+             'instrument': (Instrument, tm.InstrumentMixin), 'observation': (BaseSpectrum, tm.ObservationMixin),
+             'prior': (Prior, None)}
+    mod = types.ModuleType('verif_family_plugin')
+    made = {}
+    for fam, (plain, mixin) in bases.items():
+        for kind, base in (('plain', plain), ('mixin', mixin)):
+            if base is None:
+                continue
+            name = 'Verif%s%s' % (fam.capitalize(), kind.capitalize())
+            k = type(name, (base,), {'__module__': mod.__name__})
+            setattr(mod, name, k)
+            made[(fam, kind)] = k
+    cf = du.factory(reload=True)
+    cf.load_plugin(mod)
+    for (fam, kind), k in sorted(made.items(), key=lambda kv: kv[0]):
+        for fam2, (plain_attr, mixin_attr) in sorted(du.FAMILY.items()):
+            for kind2, attr in (('plain', plain_attr), ('mixin', mixin_attr)):
+                if attr is None:
+                    continue
+                listed = k in set(getattr(cf, attr))
+                want = (fam2 == fam and kind2 == kind)
+                r.check(listed == want, 'plugin-family', 'plugin/%s-%s/%s' % (
+                    fam, kind, 'not-registered' if want else 'registered-under-%s-%s' % (fam2, kind2)))
+    r.observe(sorted('%s-%s' % k for k in made))
+    r.nontrivial = True
+    du.factory(reload=True)
+    return r
+
+
 def enumerate_mixin(ctx):
+    ctx.run_cases('plugin_case', [{'plugin': 'all-families'}], phase='plugin')
     stacks = ['doubler+isothermal', 'add50+isothermal', 'doubler+add50+isothermal', 'add50+doubler+isothermal',
               'tempscalar+add50+isothermal', 'add50+tempscalar+isothermal', 'doubler+tempscalar+add50+isothermal',
               'add50+tempscalar+doubler+isothermal']
     sc = [{'stack': s_} for s_ in stacks] + [{'stack': s_, 'amount': True} for s_ in stacks if 'add50' in s_]
+    sc.append({'stack': 'scalegas+constant', 'family': 'gas'})
     ctx.run_cases('stack_case', sc, phase='stack')
     du.factory(reload=True)
     cases = []
